@@ -147,6 +147,12 @@ def run_mem_case(c):
             out.append(rec)
             break
         rec['reads'] = [[k, read_bytes(o)] for k, o in enumerate(objs) if o is not None]
+        # the same bytes as found in the arena at the object's (block, size)
+        rec['arena_reads'] = []
+        for k, o in enumerate(objs):
+            if o is not None:
+                (arena, start, stop), size = raw_of(o)._wrapper._state
+                rec['arena_reads'].append([k, list(bytes(arena.buffer[start:start + size]))])
         out.append(rec)
     res = dict(obs=out, arenas=[a.size for a in heap._arenas],
                live_blocks=sorted([heap._arenas.index(b[0]), b[1], b[2]] for b in heap._allocated_blocks))
@@ -245,28 +251,9 @@ def run_traces():
 
 
 # ---------------------------------------------------------------- real processes (thorough)
-def _child_visibility(v, arr, raw, conn_c):
-    seen = [v.value, list(arr), raw.value]
-    v.value = 77
-    arr[2] = 1.5
-    raw.value = -9
-    conn_c.send(seen)
-    go = conn_c.recv()                 # parent wrote again
-    conn_c.send([v.value, list(arr), raw.value])
-    conn_c.close()
-
-
-def _child_incr(v, n, locked):
-    for _ in range(n):
-        if locked:
-            with v.get_lock():
-                v.value += 1
-        else:
-            v.value += 1
-
-
 def run_procs(c):
     import billiard
+    from sharedmem_targets import child_visibility, child_incr
     bh.Arena = REAL_ARENA
     bh.mmap = real_mmap
     bh.BufferWrapper._heap = bh.Heap()
@@ -279,7 +266,7 @@ def run_procs(c):
             arr = sc.Array('d', [0.25, 0.5, 0.75, 1.0], ctx=ctx)
             raw = sc.RawValue('h', 12)
             pc, cc = ctx.Pipe()
-            p = ctx.Process(target=_child_visibility, args=(v, arr, raw, cc))
+            p = ctx.Process(target=child_visibility, args=(v, arr, raw, cc))
             p.start()
             first = pc.recv() if pc.poll(60) else None
             after_child = [v.value, list(arr), raw.value]
@@ -293,7 +280,7 @@ def run_procs(c):
                                      child_saw_parent_writes=second, exitcode=p.exitcode)
             nproc, n = c.get('nproc', 4), c.get('n', 2000)
             cnt = sc.Value('i', 0, ctx=ctx)
-            ps = [ctx.Process(target=_child_incr, args=(cnt, n, True)) for _ in range(nproc)]
+            ps = [ctx.Process(target=child_incr, args=(cnt, n, True)) for _ in range(nproc)]
             for p in ps:
                 p.start()
             for p in ps:
